@@ -193,7 +193,9 @@ def _cli(ctx, text, d, tag, detail, expect_error=True, api_exc=None, api_dir=Non
                 first = first.replace(api_dir, d)
         except Exception:
             first = None
-        if first and first not in stderr:
+        import re as _re
+        norm = lambda t: _re.sub(r"0x[0-9a-fA-F]+", "0x?", t)   # object addresses differ between the two runs
+        if first and norm(first) not in norm(stderr):
             ctx.fail("%s:cli-message-differs" % tag, dict(detail, want=first[:200], stderr=stderr[-400:]))
 
 
